@@ -239,7 +239,10 @@ def gen_entry(rng):
             hist.append(seq.pop(0))
             if not seq:
                 per_chip.remove(seq)
-        c["entry"] = dict(how="setitem", history=hist)
+        # a chip that was dead (and already had its exception) when the Machine was built -- or copied -- and is
+        # brought back by discarding it from dead_chips before the allocation
+        revive = [list(xy) for xy in final if rng.random() < 0.6]
+        c["entry"] = dict(how="setitem", history=hist, revive=revive, copy_between=rng.random() < 0.5)
         c["style"] = "entry-setitem"
         return c
     if how == "wrapper":
